@@ -131,14 +131,6 @@ Record request := mkQ {
 
 Inductive xst := XNone | XHit | XMiss.      (* ctx.State: "NONE" / "HIT" / "MISS" *)
 
-(* the lifecycle positions; vcl_hash is split by how vcl_recv left (ghost tag used by the theorems) *)
-Inductive dnode := DRecv | DHashL | DHashP | DHit | DMiss | DPass | DFetch | DError | DDeliver | DLog.
-Definition scope_of (n : dnode) : scope :=
-  match n with
-  | DRecv => Recv | DHashL | DHashP => Hash | DHit => Hit | DMiss => Miss | DPass => Pass
-  | DFetch => Fetch | DError => Error | DDeliver => Deliver | DLog => Log
-  end.
-
 Definition event := (dnode * nat * action)%type.   (* subroutine run, req.restarts, how it ended *)
 
 Record ctx := mkC {
